@@ -15,6 +15,7 @@ import (
 	"github.com/tobgu/qframe/config/newqf"
 	"pgregory.net/rapid"
 
+	"verifsim/sim/core"
 	"verifsim/sim/gen"
 	"verifsim/sim/obs"
 )
@@ -265,6 +266,10 @@ func NewWorld(t *rapid.T, b Bounds) *World {
 			if rapid.IntRange(0, 3).Draw(t, "over128") == 0 {
 				fb.MinRows, fb.MaxRows = 129, 260 // a few hundred rows: thresholds of 64, 128, 256
 			}
+			fb.Clustered = rapid.Bool().Draw(t, "clustered")
+			if fb.Clustered && fb.MinRows < 100 {
+				fb.MinRows = 100 // room for a run to come back
+			}
 		}
 		if i == 0 && b.HugeOdds > 0 && gen.Rare(t, "hugebase", b.HugeOdds) {
 			// beyond size thresholds of a thousand rows (caches and fast
@@ -284,6 +289,9 @@ func NewWorld(t *rapid.T, b Bounds) *World {
 		}
 		fb.SmallDomain = rapid.IntRange(0, 5).Draw(t, "smalldomain") != 0
 		fb.LongNames = b.LongNamesOdds > 0 && gen.Rare(t, "longnames", b.LongNamesOdds)
+		if fb.Clustered {
+			core.Probe("clustered-base-frame")
+		}
 		var fs *gen.FrameSpec
 		if i == 0 && b.GiantOdds > 0 && gen.Rare(t, "giantbase", b.GiantOdds) {
 			fs = gen.DrawGiantFrame(t)
